@@ -167,7 +167,10 @@ class Sources:
         else:
             defs = [d for d in defs if not _is_setter(d)] or defs
         if not defs:
-            return None
+            found = self.find_method(cname, fname)
+            if found is None:
+                return None
+            return (found[1], found[0], found[2])
         f = defs[0]
         # nested function:  Class.method.inner
         for inner in parts[2:]:
